@@ -22,12 +22,12 @@ RULE = (
     "history over a valid growth-grammar network staged by its growth log (early part + late groups that keep "
     "validity): 2..10 operations among full net.step (engine-created symbols or the same caller-held symbols, one of "
     "3 parameter sets differing in T/tau/eta/kappa and options), init_vars of one element with fresh symbols, step of "
-    "one element, adding the next late group (link / link+destination / source+link / ramp), to_function at a drawn "
+    "one element, adding the next late group (link / link+destination / source+link / ramp), replacing a destination or a queued origin by a fresh object on the same node, to_function at a drawn "
     "compactness level; SX or MX. Non-trivial = a compile after an add-after-step or a re-init-after-step, or after "
     ">=2 full steps. Distinct = SHA-1 of the case."
 )
-BUDGET = {"quick": {"examples": 200, "shards": 4}, "thorough": {"examples": 2500, "shards": 16}}
-EXPECTED_LABELS = ("engine:SX", "engine:MX", "compile:not-ready:raised", "compile:ready:returned", "compile:after-add", "compile:after-reinit",
+BUDGET = {"quick": {"examples": 200, "shards": 4}, "thorough": {"fuzz_runs": 3000, "examples": 2500, "shards": 16}}
+EXPECTED_LABELS = ("replace:dest", "replace:origin", "engine:SX", "engine:MX", "compile:not-ready:raised", "compile:ready:returned", "compile:after-add", "compile:after-reinit",
                    "compile:after-2-steps", "compile:before-any-step", "same-symbols-restep", "late:ramp", "late:link", "late:branch", "late:source",
                    "value-checked")
 ASSUMPTIONS = ["re-initialisation always uses fresh engine variables (re-initialising with the same symbols would be a no-op)",
@@ -61,8 +61,10 @@ def cases(draw):
             ops.append(["init", draw(st.sampled_from(all_ids))])
         elif c == 4:
             ops.append(["elstep", draw(st.sampled_from(all_ids))])
-        elif c in (5, 6):
+        elif c == 5:
             ops.append(["add_late"])
+        elif c == 6:
+            ops.append(draw(st.sampled_from([["add_late"], ["replace", "dest", draw(st.integers(0, 5))], ["replace", "origin", draw(st.integers(0, 5))]])))
         else:
             ops.append(["compile", draw(st.integers(-1, 3))])
     ops.append(["compile", draw(st.integers(0, 2))])
@@ -98,6 +100,7 @@ def declared(el):
 
 
 def check_case(case, ctx):
+    case = copy.deepcopy(case)  # the interpreter edits the spec (replacement of a destination changes its kind)
     sp, sym = case["spec"], case["sym"]
     ctx.label("engine:" + sym)
     eng = CasadiEngine(sym)
@@ -178,6 +181,31 @@ def check_case(case, ctx):
                 return
             fresh[i] = True
             since.add("elstep")
+        elif op[0] == "replace":
+            # later attachments replace earlier ones: a fresh destination / origin object of the same kind on the same node
+            grp = "dests" if op[1] == "dest" else "origins"
+            cands = [e for e in sp[grp] if e["id"] in present and (grp == "dests" or e["kind"] != "ideal")]
+            if not cands:
+                continue
+            e = cands[op[2] % len(cands)]
+            old_id = e["id"]
+            new_obj = S.make_dest(dict(e, kind="cong")) if grp == "dests" else S.make_origin(e)
+            if grp == "dests":
+                e["kind"] = "cong"
+                r = guarded(ctx, "replace", net.add_destination, new_obj, nodes[e["node"]])
+            else:
+                r = guarded(ctx, "replace", net.add_origin, new_obj, nodes[e["node"]])
+            if crashed(r):
+                return
+            els[old_id] = new_obj
+            if old_id in held and grp == "dests":
+                held[old_id] = {"d": XX.sym(f"d_{e['name']}", 1, 1)}
+            if grp == "dests" and old_id not in case["probe"]:
+                case["probe"][old_id] = {"d": [20.0]}
+                held[old_id] = {"d": XX.sym(f"d_{e['name']}", 1, 1)}
+            init[old_id], fresh[old_id] = False, False
+            ctx.label("replace:" + op[1])
+            since.add("add" if n_steps else "add-before-step")
         elif op[0] == "add_late":
             if not pending_late:
                 continue
